@@ -944,7 +944,7 @@ def run(ctx: lib.Ctx) -> None:
         sessions.append((cells, ['corpus']))
     for cells in HAND:
         sessions.append((cells, ['hand']))
-    nsess = ctx.n(80, 800)
+    nsess = ctx.n(60, 800)
     maxlen = ctx.n(8, 14)
     for _ in range(nsess):
         n = ctx.rng.randrange(3, maxlen + 1)
@@ -953,7 +953,7 @@ def run(ctx: lib.Ctx) -> None:
 
     # failures at every instruction position of one cell (hand-written sessions always, generated ones as the tier allows)
     swept = []
-    for cells, kinds in sessions[:len(HAND) + ctx.corpus_cases + ctx.n(6, 80)]:
+    for cells, kinds in sessions[:len(HAND) + ctx.corpus_cases + ctx.n(5, 80)]:
         swept += position_sweep(ctx.rng, cells, ctx.n(5, 10))
     sessions += swept
     ctx.extra['position_sweep_sessions'] = len(swept)
